@@ -266,6 +266,14 @@ func CollectTwin(log *TwinLog) func(w *World, c *Call) {
 				}
 				log.add(fmt.Sprintf("call%d/template/%s", c.N, tpl), val+"|"+es)
 			}
+			// without the policy the same expressions do see the URN
+			if s.Contact() != nil && len(s.Contact().URNs()) > 0 && s.Environment().RedactionPolicy() != envs.RedactionPolicyURNs && env.RedactionPolicy() != envs.RedactionPolicyURNs {
+				val, _, _ := s.Engine().Evaluator().Template(env, ctx, "@contact.urns", nil)
+				if path := s.Contact().URNs()[0].URN().Path(); !strings.Contains(val, path) {
+					w.Violate("C19", "visible-without-policy", "C19.urn-hidden-without-policy/"+w.Cfg.Prop, fmt.Sprintf("the environment's redaction policy is %q (not urns) but @contact.urns renders as %q for a contact whose first URN has the path %q", s.Environment().RedactionPolicy(), val, path))
+				}
+				w.probe("c19_visible_without_policy_checked")
+			}
 			// nameless contacts are shown by id under the policy
 			if s.Contact() != nil && s.Contact().Name() == "" && env.RedactionPolicy() == envs.RedactionPolicyURNs {
 				val, _, _ := s.Engine().Evaluator().Template(env, ctx, "@contact", nil)
